@@ -492,3 +492,57 @@ Theorem C12_main_runs_decrypt :
   = of_cmd (cmd_decrypt P pk_ok sk_ok unlock decode_pk encode_pk utf8_decode w (dec_opts_of d)).
 Proof. intros until d; apply cli_main_decrypt. Qed.
 Print Assumptions C12_main_runs_decrypt.
+
+(* command words, option tables, messages and the exit status of the CURRENT main.rs / commands.rs (tools/extract.py),
+   tied to the model's own constants and option builders *)
+Definition x_opt_add (o : outcome usage_msg options) (e : N * list N * list N) : outcome usage_msg options :=
+  obind o (fun o' => let '(k, s, l) := e in
+                     if k =? 0 then reqopt s l o' else if k =? 1 then optopt s l o' else optflag s l o').
+(* an Options object: long_only(true), then the reqopt (0) / optopt (1) / optflag (2) calls of the table in order *)
+Definition x_opts (t : list (N * list N * list N)) : outcome usage_msg options :=
+  fold_left x_opt_add t (Ok (set_long_only true options_new)).
+(* a Rust format string with "{}" placeholders filled from a list of texts *)
+Fixpoint x_fmt (f : text) (args : list text) : text :=
+  match f with
+  | [] => []
+  | c :: r =>
+    match r with
+    | d :: r' =>
+      if ((c =? 123) && (d =? 125))%bool
+      then match args with a :: rest => a ++ x_fmt r' rest | [] => x_fmt r' [] end
+      else c :: x_fmt r args
+    | [] => [c]
+    end
+  end.
+
+Theorem C12_cli_constants :
+  (* exit status: 0 for a success, the extracted process::exit value otherwise (101 = Rust's panic status, 102 = the
+     model's fuel artefact) *)
+  (forall st : cmd_status,
+     code_of st = if is_success st then 0 else match st with SPanic _ => 101 | SOutOfFuel => 102 | _ => x_cli_exit_err end) /\
+  x_cli_exit_err = 1 /\
+  (* the words of the three `match` dispatches, in arm order *)
+  x_cli_cmd_words = [[s_help_short; s_help_long]; [s_version_short; s_version_long]; [s_enc; s_encrypt]; [s_dec; s_decrypt];
+                     [s_key]; [s_pass; s_password]] /\
+  x_cli_cmd_has_default_arm = 1 /\
+  x_cli_key_words = [[s_gen; s_generate]; [s_change_pass]; [s_extract_pub]] /\
+  x_cli_pass_words = [[s_encrypt; s_enc]; [s_decrypt; s_dec]] /\
+  x_cli_help_flags = [s_help_long; s_help_short] /\ x_cli_help_argc_max = 1 /\
+  x_cli_dispatch_slice_idx = [2; 2; 2; 2] /\ x_cli_key_slice_idx = [1; 1; 1] /\ x_cli_pass_slice_idx = [1; 1] /\
+  (* the option tables of the model ARE the extracted ones *)
+  encrypt_options = x_opts x_cli_encrypt_opts /\ decrypt_options = x_opts x_cli_decrypt_opts /\
+  gen_options = x_opts x_cli_gen_opts /\ envpass_options = x_opts x_cli_change_opts /\
+  envpass_options = x_opts x_cli_extract_opts /\ pass_options = x_opts x_cli_pass_encrypt_opts /\
+  pass_options = x_opts x_cli_pass_decrypt_opts /\ x_cli_long_only_all = 1 /\
+  (* messages *)
+  x_cli_usage_msgs = [m_invalid_command; m_invalid_usage; m_provide_key] /\ x_cli_usage_hint = m_more_info /\
+  (forall m : usage_msg, usage_error_text m = x_fmt x_cli_usage_fmt [usage_msg_to_string m; x_cli_usage_hint]) /\
+  x_cli_from_hint_opts = [s_f; s_from] /\ x_cli_from_hint_fmt = 123 :: 125 :: m_from_hint /\
+  (* the CLI never injects ephemeral / payload keys; the password-mode salt it draws *)
+  x_cli_key_encrypt_injects_none = 1 /\ x_cli_pass_salt_draw = x_enc_salt_len /\ x_cli_pass_salt_len = x_enc_salt_len /\
+  (* getopts 0.2.21 is what Model/Getopts.v transcribes *)
+  x_dep_getopts_version = [0; 2; 21].
+Proof.
+  repeat split; intros; reflexivity.
+Qed.
+Print Assumptions C12_cli_constants.
